@@ -43,7 +43,7 @@ class Repl(object):
             self.m = I.Machine([], '')
             return []
         if t == 'help':
-            return [('helpline',)] * 4
+            return [('help',)]
         if t == 'exit':
             self.ended = 0
             return []
@@ -97,16 +97,14 @@ def parse_transcript(text):
             line, pos = text[pos:], n
         else:
             line, pos = text[pos:j], j + 1
-        if line in ('Hyeo-ung Programming Language', 'type help for help') and len(replies) == 1:
-            continue
+        if len(replies) == 1:
+            continue          # banner before the first prompt: wording not prescribed
         if line.startswith('[stdout] '):
             replies[-1].append(('out', line[9:]))
         elif line.startswith('[stderr] '):
             replies[-1].append(('err', line[9:]))
-        elif line.startswith(HELP_PREFIXES):
-            replies[-1].append(('helpline',))
         else:
-            replies[-1].append(('unknown', line))
+            replies[-1].append(('text',))
     return replies
 
 
@@ -126,6 +124,10 @@ def check_session(lines, status, stdout, stderr):
         if k >= len(replies):
             return ('repl:short', 'prompt #%d for %r' % (k, ln), 'transcript ends after %d prompts; %s; stderr %r' % (
                 len(replies) - 1, status, stderr[-200:]))
+        if exp == [('help',)]:
+            if replies[k] and all(g == ('text',) for g in replies[k]):
+                continue
+            return ('repl:reply', 'line %d %r: help text' % (k, ln), str(replies[k]))
         if exp != replies[k]:
             return ('repl:reply', 'line %d %r: %s' % (k, ln, exp), str(replies[k]))
     if s.ended is None:
